@@ -10,6 +10,7 @@ import ast
 import base64
 import json
 import os
+import signal
 import sys
 import traceback
 
@@ -145,7 +146,7 @@ def op_rt(case, pm):
     src = get_src(case)
     try:
         tree = ast.parse(src)
-    except BaseException as e:
+    except Exception as e:
         return {'status': 'skip', 'reason': 'unparseable'}
     want = sdump(tree)
     res = {'status': 'held', 'skeleton': skeleton_hash(tree), 'violations': [], 'errors': []}
@@ -163,7 +164,7 @@ def op_rt(case, pm):
         except RecursionError if not PY2 else RuntimeError as e:
             res['errors'].append({'mode': mode, 'exc': exc_info(e), 'recursion': True})
             continue
-        except BaseException as e:
+        except Exception as e:
             res['errors'].append({'mode': mode, 'exc': exc_info(e)})
             continue
         try:
@@ -174,7 +175,7 @@ def op_rt(case, pm):
             else:
                 out_p = out
             tree2 = ast.parse(out_p)
-        except BaseException as e:
+        except Exception as e:
             res['violations'].append({'mode': mode, 'kind': 'output-unparseable', 'detail': str(e)[:200], 'out': out[:400]})
             continue
         if sdump(tree2) != want:
@@ -192,18 +193,18 @@ def op_mc(case, pm):
     parse_exc = None
     try:
         tree = ast.parse(src)
-    except BaseException as e:
+    except Exception as e:
         parse_exc = e
     res = {'status': 'held', 'counters': {}}
     if parse_exc is None:
         try:
             compile(src, fn, 'exec', dont_inherit=True)
-        except BaseException as e:
+        except Exception as e:
             return {'status': 'skip', 'reason': 'parses-but-does-not-compile'}
         res['skeleton'] = skeleton_hash(tree)
     try:
         out = pm.minify(src, **make_kwargs(pm, opts))
-    except BaseException as e:
+    except Exception as e:
         if parse_exc is not None:
             if type(e) is type(parse_exc):
                 res['kind'] = 'invalid-rejected'
@@ -224,7 +225,7 @@ def op_mc(case, pm):
         if PY2 and isinstance(o, unicode):
             o = b'# -*- coding: utf-8 -*-\n' + o.encode('utf-8')
         compile(o, fn, 'exec', dont_inherit=True)
-    except BaseException as e:
+    except Exception as e:
         return {'status': 'violation', 'kind': 'output-does-not-compile', 'detail': '%s: %s' % (type(e).__name__, str(e)[:200]),
                 'out': out[:600]}
     res['kind'] = 'ok'
@@ -243,7 +244,7 @@ def _eval_stmt_value(text):
     ns = {}
     try:
         exec(compile(text, 'fold_case', 'exec', dont_inherit=True), ns)
-    except BaseException as e:
+    except Exception as e:
         return ('raise', type(e).__name__)
     if 'V' not in ns:
         return ('novalue', '')
@@ -251,7 +252,7 @@ def _eval_stmt_value(text):
     if callable(v) and not isinstance(v, type):
         try:
             v = v()
-        except BaseException as e:
+        except Exception as e:
             return ('raise', type(e).__name__)
     return ('value', _value_key(v))
 
@@ -261,7 +262,7 @@ def op_fold(case, pm):
     src = get_src(case)
     try:
         compile(src, 'fold_case', 'exec', dont_inherit=True)
-    except BaseException:
+    except Exception:
         return {'status': 'skip', 'reason': 'uncompilable'}
     off = all_off_kwargs(pm)
     on = dict(off)
@@ -270,7 +271,7 @@ def op_fold(case, pm):
     try:
         out_off = pm.minify(src, **off)
         out_on = pm.minify(src, **on)
-    except BaseException as e:
+    except Exception as e:
         return {'status': 'error', 'exc': exc_info(e)}
     res['folded'] = out_on != out_off
     res['out_on'] = out_on[:300]
@@ -297,8 +298,16 @@ def op_compile(case, pm):
     try:
         compile(src, 'vf_case.py', 'exec', dont_inherit=True)
         return {'status': 'held'}
-    except BaseException as e:
+    except Exception as e:
         return {'status': 'fail', 'detail': '%s: %s' % (type(e).__name__, str(e)[:200])}
+
+
+class CaseTimeout(BaseException):
+    pass
+
+
+def _on_alarm(signum, frame):
+    raise CaseTimeout()
 
 
 OPS = {'rt': op_rt, 'mc': op_mc, 'fold': op_fold, 'compile': op_compile}
@@ -318,7 +327,14 @@ def main():
         out = []
         for case in msg['batch']:
             try:
-                r = OPS[case['op']](case, pm)
+                signal.signal(signal.SIGALRM, _on_alarm)
+                signal.alarm(int(case.get('case_timeout', 12)))
+                try:
+                    r = OPS[case['op']](case, pm)
+                finally:
+                    signal.alarm(0)
+            except CaseTimeout:
+                r = {'status': 'inconclusive', 'reason': 'case-timeout', 'timeout_case': True}
             except BaseException as e:
                 if isinstance(e, (KeyboardInterrupt, SystemExit)):
                     raise
